@@ -48,6 +48,7 @@ DECIDING = {
     "ops_inside_teardown": "operations applied inside a teardown callback",
     "ops_through_component_context": "operations applied through a ComponentContext retained from a component's start()",
     "closed_flip_checked": "closed flag sampled right before the block end and in the first teardown callback",
+    "equal_sibling_cases": "value-equal sibling contexts open at once under one parent",
     "open_child_exit_cases": "parent left while a child entered from it is still open",
     "state_closed_teardown_raised": "state after a teardown that raised",
     "state_closed_cancelled": "state after a cancelled exit",
@@ -371,6 +372,67 @@ async def open_child_case(case: dict[str, Any], sc: Scenario) -> None:
         sc.bad("lifecycle-open-child-ignored", "a context was left while a child context entered from it was still open and no error was reported")
 
 
+async def equal_siblings_case(case: dict[str, Any], sc: Scenario) -> None:
+    """two (or three) sibling contexts of a Context subclass with value semantics - they all compare and hash equal - are open
+    at the same time under one parent and are left one after the other; then the parent is left, either after all of them
+    (no error) or while the last one is still open (must be reported)"""
+    from asphalt.core import Context
+
+    Eq = type("EqContext", (Context,), {"__eq__": lambda a, b: isinstance(b, Context), "__hash__": lambda a: 5})  # noqa: N806
+    n = case["siblings"]
+    opened = [anyio.Event() for _ in range(n)]
+    release = [anyio.Event() for _ in range(n)]
+    left: list[Any] = []
+    outcome: dict[str, Any] = {}
+
+    async def child(i: int, parent: Any) -> None:
+        try:
+            async with (Eq(parent) if case["explicit_parent"] else Eq()) as c:
+                c.add_resource(i, f"r{i}")
+                opened[i].set()
+                await release[i].wait()
+            left.append((i, None, bool(c.closed)))
+        except BaseException as e:
+            left.append((i, e, None))
+            if case["leave_parent_early"]:
+                raise
+
+    try:
+        async with create_task_group() as tg:
+            try:
+                async with Eq() as parent:
+                    for i in range(n):
+                        tg.start_soon(child, i, parent)
+                    for ev in opened:
+                        await ev.wait()
+                    last = n - 1 if case["leave_parent_early"] else n
+                    for i in range(last):
+                        release[i].set()
+                        while len(left) <= i:
+                            await anyio.sleep(0.01)
+            except BaseException as e:
+                outcome["parent"] = e
+            else:
+                outcome["parent"] = None
+            for ev in release:
+                ev.set()
+    except BaseException as e:
+        outcome["outer"] = e
+    sc.inc("equal_sibling_cases")
+    sc.log.append(f"left: {[(i, describe_exc(e) if e else None, c) for i, e, c in left]}; outcome: { {k: describe_exc(v) for k, v in outcome.items()} }")
+    expected_clean = n - 1 if case["leave_parent_early"] else n
+    for i, e, closed in left[:expected_clean]:
+        if e is not None:
+            sc.bad("lifecycle-equal-siblings", f"leaving sibling context {i} (one of {n} value-equal contexts open under one parent) raised {describe_exc(e)}")
+        elif closed is not True:
+            sc.bad("lifecycle-closed-flag[equal-siblings]", f"sibling context {i} does not report itself closed after its block was left")
+    if case["leave_parent_early"]:
+        if outcome.get("parent") is None and outcome.get("outer") is None:
+            sc.bad("lifecycle-open-child-ignored", "a context was left while one of its value-equal child contexts was still open and no error was reported")
+    elif outcome.get("parent") is not None or outcome.get("outer") is not None:
+        sc.bad("lifecycle-equal-siblings", f"leaving the parent after all its children had been left raised: {sc.log[-1]}")
+
+
 # ---------------------------------------------------------------------------------------------
 
 ENDINGS = ["clean", "block_raises", "teardown_raises", "cancelled"]
@@ -392,6 +454,8 @@ def matrix_cells() -> list[dict[str, Any]]:
                           "ops": {slot: [op]}, "via": "component"})
     for nested, explicit, backend, falsy in itertools.product([False, True], [False, True], ["asyncio", "trio"], [False, True]):
         cells.append({"kind": "open_child", "nested": nested, "explicit_parent": explicit, "backend": backend, "falsy_contexts": falsy})
+    for siblings, explicit, early, backend in itertools.product([2, 3], [False, True], [False, True], ["asyncio", "trio"]):
+        cells.append({"kind": "equal_siblings", "siblings": siblings, "explicit_parent": explicit, "leave_parent_early": early, "backend": backend})
     for nested, backend in itertools.product([False, True], ["asyncio", "trio"]):
         cells.append({"kind": "cell", "state": "inactive", "op": "all", "nested": nested, "backend": backend, "ending": "clean",
                       "never_enter": True, "ops": {"inactive": [o for o in OPS if o != "reenter"]}})
@@ -424,6 +488,8 @@ def run_case(case: Any) -> dict[str, Any]:
     try:
         if case["kind"] == "open_child":
             run_virtual(case["backend"], open_child_case, case, sc)
+        elif case["kind"] == "equal_siblings":
+            run_virtual(case["backend"], equal_siblings_case, case, sc)
         else:
             run_virtual(case["backend"], sc.main, sched_seed=case.get("sched_seed", 0))
     except VirtualDeadlock as e:
@@ -438,7 +504,7 @@ def run_case(case: Any) -> dict[str, Any]:
     sample = None
     if case["kind"] == "random" and rej and acc and len(sc.log) > 8:
         sample = {"case": case, "log": sc.log[:30]}
-    return {"violations": sc.V[:5], "sig": case, "nontrivial": bool(rej and acc) or case["kind"] == "open_child" or case["kind"] == "cell",
+    return {"violations": sc.V[:5], "sig": case, "nontrivial": bool(rej and acc) or case["kind"] in ("open_child", "cell", "equal_siblings"),
             "counters": sc.counters, "sample": sample}
 
 
